@@ -231,17 +231,19 @@ Definition gateway (G : generation) (fschema : schema) (W : world) (op : operati
   let perrs := map (fun m => {| ge_kind := EPerm; ge_path := [PName m]; ge_service := false |}) perm_errs in
   let root := match o_kind op with OMutation => "Mutation" | _ => "Query" end in
   let pc := {| pc_schema := fschema; pc_locations := g_locations G; pc_is_boundary := g_is_boundary G; pc_services := g_services G |} in
-  let err_only := fun (steps : list step) (rqs : list request) =>
-    Ok {| oc_response := {| r_data := None; r_errors := [{| ge_kind := EInternal; ge_path := []; ge_service := false |}] |};
+  (* an execution that is abandoned (executable_schema.go:252): the permission errors collected before it, then the
+     execution's error (after the fix that keeps them; a planning error is reported alone) *)
+  let err_only := fun (pre : list gerror) (steps : list step) (rqs : list request) =>
+    Ok {| oc_response := {| r_data := None; r_errors := pre ++ [{| ge_kind := EInternal; ge_path := []; ge_service := false |}] |};
           oc_requests := rqs; oc_plan := steps; oc_merged := None; oc_op := ss |} in
   match plan pc root ss with
-  | Err _ => err_only [] []
+  | Err _ => err_only [] [] []
   | Ok steps =>
     match fold_left (fun racc st => do a <- racc ;; exec_root G W vars fuel st a) steps
                     (Ok {| a_results := []; a_requests := []; a_errors := []; a_count := 0 |}) with
-    | Err _ => err_only steps []
+    | Err _ => err_only perrs steps []
     | Ok a =>
-      if Nat.ltb max (a_count a) then err_only steps (a_requests a) else
+      if Nat.ltb max (a_count a) then err_only perrs steps (a_requests a) else
       let errs := perrs ++ a_errors a in
       (* the gateway's own step result comes first in the list only when it is a root step executed inline: execution.go:58-72 *)
       let internal_first := filter (fun r => String.eqb (er_url r) internal_service) (a_results a) ++
